@@ -33,6 +33,8 @@ TRUSTED_BASE = [
     "Classical_Prop.classic, which coqchk -o (thorough tier) therefore lists for that library context",
     "extraction: ExtrOcamlBasic only (bool, option, unit, list, prod, sumbool, sumor, andb, orb); "
     "Z/positive/Q/Qc stay extracted datatypes; OCaml driver (Zarith I/O only)",
+    "translators harness/translate/*.py (Python ast -> Gallina, fail-closed, Gen/*.v regenerated on every run): their reading of the Python / NumPy "
+    "constructs listed in each translator's header (broadcasting kinds, einsum, meshgrid, fftfreq, list replication, slices) is trusted",
     "correspondence harness (generators, tolerances) and NumPy/JAX numerics",
     "modelled not verified: jnp.fft.rfftn/irfftn/fftfreq, meshgrid, jnp.exp/sqrt, lax.scan, vmap/jit/AD, PRNG, IEEE rounding",
 ]
